@@ -132,6 +132,18 @@ func (c *cluster) coalesced() int {
 	return n
 }
 
+// stopPeerTimers stops the 5 ms flush ticker of every peer object that exists by now: peer frames are then flushed by
+// the probes only (a ticker that has taken the queue but not yet sent it would make a probe miss its own frame).
+func (c *cluster) stopPeerTimers() {
+	for _, n := range c.names {
+		for _, m := range c.names {
+			if m != n {
+				c.nodes[n].b.Svc.VerifCluster().VerifStopPeerTimers(c.nodes[m].peer)
+			}
+		}
+	}
+}
+
 // members reads every broker's member list.
 func (c *cluster) members() map[string][]string {
 	out := map[string][]string{}
@@ -283,6 +295,7 @@ func Replay(walk []json.RawMessage, names, ssids []string, label string, lic int
 		default:
 			return nil, fmt.Errorf("unknown action %q", a.N)
 		}
+		c.stopPeerTimers()
 		ev["routes"], ev["active"] = c.observe()
 		ev["coalesced"] = c.coalesced()
 		ev["members"] = c.members()
@@ -456,21 +469,7 @@ func Explore(c *core.Ctx) int64 {
 		if err != nil || r.Violated != "" || r.ErrText != "" || r.TimedOut {
 			core.Fatalf("gossip simulation failed: %v %s", err, r.Brief())
 		}
-		sort.Strings(lines)
-		var walks [][]json.RawMessage
-		for i, l := range lines {
-			if i+1 < len(lines) && (lines[i+1] == l || strings.HasPrefix(lines[i+1], l+",")) {
-				continue
-			}
-			var h []json.RawMessage
-			if json.Unmarshal([]byte(l+"]"), &h) == nil && len(h) > 0 {
-				walks = append(walks, h)
-			}
-		}
-		rng.Shuffle(len(walks), func(i, j int) { walks[i], walks[j] = walks[j], walks[i] })
-		if len(walks) > k.n {
-			walks = walks[:k.n]
-		}
+		walks := core.Behaviours(lines, k.n, rng)
 		c.Add("simulated_schedules", int64(len(walks)))
 		var traces []*core.Trace
 		byLabel := map[string]*core.Trace{}
